@@ -226,6 +226,15 @@ def discharge(obls: List[Obligation], tier: str = "quick", jobs: Optional[int] =
     try:
         with ThreadPoolExecutor(max_workers=jobs) as ex:
             list(ex.map(lambda o: _decide(o, budget, confirm, tmpdir), obls))
+        # second chance for the few obligations left undecided (solver time varies with machine load):
+        # a longer budget, fewer in flight
+        retry = [o for o in obls if o.status == "undecided" and o.kind not in ("cover", "canary")]
+        if retry and not os.environ.get("PYVC_NO_RETRY"):
+            first = {id(o): list(o.info.get("solver_runs", [])) for o in retry}
+            with ThreadPoolExecutor(max_workers=max(2, jobs // 3)) as ex:
+                list(ex.map(lambda o: _decide(o, budget * 6, confirm, tmpdir), retry))
+            for o in retry:
+                o.info["solver_runs"] = first[id(o)] + [("retry",)] + list(o.info.get("solver_runs", []))
     finally:
         try:
             for f in os.listdir(tmpdir):
